@@ -308,30 +308,46 @@ def named_attr(obj, prefer, part, default=None):
     cands = [k for k in vars(obj) if part in k and "lock" not in k]
     return getattr(obj, cands[0]) if len(cands) == 1 else default
 
-def queue_fns(t):
-    """frame numbers of the queued messages, whatever container holds them (list, deque, dict fn -> messages, ...), as a
-    sorted multiset: the order of arrival between different frames is internal (all bursts of one tick have one fn)"""
-    items = []
-    def walk(x):
+SKIP_ATTRS = ("data_if", "ctrl_if", "clck_if", "clck_gen", "child_trx_list", "trx_list", "fh", "burst_fwd", "pwr_meas", "app")
+
+def reachable(t, want, depth_max=4):
+    """objects satisfying `want` that are reachable from the transceiver through its own attributes, containers and helper
+    objects (not through its interfaces, clock, children): [(owner, key, object)]"""
+    seen, out = set(), []
+    def walk(owner, key, x, depth):
+        if id(x) in seen or depth > depth_max:
+            return
+        seen.add(id(x))
+        if want(x):
+            out.append((owner, key, x))
+            return
         if isinstance(x, dict):
-            for v in x.values():
-                walk(v)
+            for k, v in list(x.items()):
+                walk(x, k, v, depth + 1)
         elif isinstance(x, (list, tuple, set, frozenset)) or type(x).__name__ == "deque":
-            for v in x:
-                walk(v)
-        else:
-            items.append(x)
-    walk(named_attr(t, "_tx_queue", "queue", []))
-    fns, other = [], []
-    for m in items:
-        fn = getattr(m, "fn", "<%s>" % type(m).__name__)   # an element that is not a message is shown by its type name
-        if fn is None:
-            fns.append(-1)
-        elif isinstance(fn, int):
-            fns.append(fn)
-        else:
-            other.append(str(fn))
-    return "/".join(["N" if f < 0 else str(f) for f in sorted(fns)] + sorted(other)) or "-"
+            for i, v in enumerate(list(x)):
+                walk(x, i, v, depth + 1)
+        elif hasattr(x, "__dict__") and type(x).__module__ not in ("builtins", "threading", "_thread", "socket", "logging", "random"):
+            for k, v in list(vars(x).items()):
+                if k not in SKIP_ATTRS:
+                    walk(x, k, v, depth + 1)
+    for k, v in list(vars(t).items()):
+        if k not in SKIP_ATTRS:
+            walk(t, k, v, 1)
+    return out
+
+def is_msg(x):
+    return type(x).__name__ in ("TxMsg", "RxMsg") or (hasattr(x, "fn") and hasattr(x, "tn") and hasattr(x, "burst"))
+
+def queue_fns(t):
+    """frame numbers of the messages the transceiver holds, whatever container / helper object / attribute name holds them
+    (list, deque, dict fn -> messages, a queue class of its own, ...), as a sorted multiset: the order of arrival between
+    different frames is internal (all bursts of one tick have one fn)"""
+    fns = []
+    for _, _, m in reachable(t, is_msg):
+        fn = getattr(m, "fn", None)
+        fns.append(fn if isinstance(fn, int) else -1)
+    return "/".join("N" if f < 0 else str(f) for f in sorted(fns)) or "-"
 
 def state(app):
     parts = []
